@@ -23,6 +23,7 @@ type TState struct {
 	StrictKey  string
 	LooseKey   string
 	DirectDeps []string // resolved target labels
+	Written    string   // digest of the dependency list as written (labels, aliases unresolved)
 }
 
 // Order returns target labels in a topological order (dependencies first). ok=false on cycles
@@ -105,6 +106,9 @@ func (s *Spec) Eval() (map[string]*TState, error) {
 			}
 		}
 		sort.Strings(st.DirectDeps)
+		written := append([]string{}, t.Deps...)
+		sort.Strings(written)
+		st.Written = H(written...)
 		st.DEP = DepDigest(st.Views)
 		st.Outs = Produce(t, st.IN, st.DEP)
 		var od []string
